@@ -45,6 +45,9 @@ def verify_function(world, qualname):
     st.heap = Heap()
     ptypes = world.param_types(fn, c)
     for n, ty in ptypes.items():
+        if n in getattr(c, 'special', {}):
+            st.locals[n] = ex.lift_const(c.special[n])
+            continue
         v = fresh(ty, n)
         st.locals[n] = v
         st.pc += world.type_facts(v, st.heap)
